@@ -22,7 +22,7 @@ use std::collections::HashSet;
 use std::ops::{Deref, DerefMut};
 
 use super::env::Env;
-use super::error::{RedoError, RedoErrorKind};
+use super::error::RedoError;
 use super::helpers::RedoPath;
 use super::state::{self, DepMode, File, ProcessTransaction, Stamp};
 
@@ -64,7 +64,15 @@ fn private_is_dirty(
     cb: &mut DirtyCallbacks,
 ) -> Result<Dirtiness, RedoError> {
     if already_checked.contains(&f.id()) {
-        return Err(RedoErrorKind::CyclicDependency.into());
+        // The recorded rows lead back to a file this walk is in the middle
+        // of.  That says nothing about the scripts: rows go stale (an edge
+        // that a killed build had only flagged for deletion, next to the
+        // reverse edge its successor recorded), and a walk over them must
+        // not fail for ever.  The files on the way have to be rebuilt; a
+        // cycle that the scripts really contain is found when they run (the
+        // lock of a target being built is asked for by a descendant).
+        log_debug!("{}-- DIRTY (recorded dependencies form a cycle)\n", depth);
+        return Ok(Dirtiness::Dirty);
     }
     let already_checked = {
         let mut already_checked = already_checked.clone();
